@@ -8,6 +8,11 @@ CALLEES = {**R.INMEM_CALLEES, **R.FILE_CALLEES}
 LIB = filemodel.install_repo_models({})
 
 
+# the plumbing this property's claim runs through (contracts/chain.py): listed here too, so that a change inside it is caught by THIS check
+from . import chain as CH   # noqa: E402
+CH.extend(CONTRACTS, CH.readers() + CH.plumbing() + CH.tables() + CH.wrapper())
+
+
 def EXTRA():
     # the public entry point hands request, budget and batching options to the function that does the work, on both paths
     from jvc import effects
